@@ -678,6 +678,26 @@ func (u *Unit) execAppend(st *State, call *ssa.CallCommon, args []Value, pos tok
 		q := fmt.Sprintf("(forall ((p Int)) (! (= (select %s p) (ite (and %s) (select %s %s) (select %s p))) :pattern ((select %s p))))",
 			n.S, strings.Join(conds, " "), arr.S, src, arr.S, n.S)
 		u.ctx.Assert(Implies(st.G, Term{q, SBool}), "append-copy")
+		if len(path) == 0 {
+			// forward trigger: an index of the old slice yields the corresponding cell of the new array
+			fq := fmt.Sprintf("(forall ((i Int)) (! (=> (and (<= 0 i) (< i %s)) (= (select %s (ea %s i)) (select %s (ea %s (+ %s i))))) :pattern ((ea %s (+ %s i)))))",
+				s.Len.S, n.S, r.S, arr.S, s.Arr.S, s.Off.S, s.Arr.S, s.Off.S)
+			u.ctx.Assert(Implies(st.G, Term{fq, SBool}), "append-copy-forward")
+			// ground facts for the appended elements when their number is a small constant
+			if k, ok := smallLit(t.Len); ok && k <= 4 {
+				for j := int64(0); j < k; j++ {
+					dst := Select(n, u.elemAddr(r, Arith("+", s.Len, IntLit(j))))
+					src := Select(arr, u.elemAddr(t.Arr, Arith("+", t.Off, IntLit(j))))
+					if j == 0 {
+						dst = Select(n, u.elemAddr(r, s.Len))
+					}
+					if t.Off.S == "0" {
+						src = Select(arr, u.elemAddr(t.Arr, IntLit(j)))
+					}
+					u.ctx.Assert(Implies(st.G, Eq(dst, src)), "append-element")
+				}
+			}
+		}
 		st.Heap[fam] = n
 		u.famSort[fam] = sortv
 		u.written[fam] = true
@@ -768,7 +788,9 @@ func (u *Unit) runDefers(fr *frame, st *State) {
 func (u *Unit) scanCallWrites(fr *frame, call *ssa.CallCommon, instr ssa.Value, ws *writeSet, inLoop func(ssa.Value) bool, depth int) {
 	if call.IsInvoke() {
 		if c := u.w.ifaceContract(call.Value.Type(), call.Method.Name()); c != nil {
-			u.scanContractWrites(c, ws, call.Signature(), call.Value.Type())
+			if !u.scanContractWritesAt(c, ws, call, nil, inLoop, depth) {
+				u.scanContractWrites(c, ws, call.Signature(), call.Value.Type())
+			}
 			return
 		}
 		if n, ok := call.Value.Type().(*types.Named); ok && n.Obj().Pkg() != nil && isNoopCallee(n.Obj().Pkg().Path(), call.Method.Name()) {
@@ -811,6 +833,11 @@ func (u *Unit) scanCallWrites(fr *frame, call *ssa.CallCommon, instr ssa.Value, 
 		}
 		return
 	case *ssa.Function:
+		if c := u.w.contractFor(callee); c != nil && !c.Inline {
+			if _, isExt := externals[callee.String()]; !isExt && u.scanContractWritesAt(c, ws, call, callee, inLoop, depth) {
+				return
+			}
+		}
 		u.scanFuncWrites(fr, callee, ws, depth)
 		return
 	case *ssa.MakeClosure:
@@ -870,6 +897,114 @@ func (u *Unit) scanFuncWrites(fr *frame, callee *ssa.Function, ws *writeSet, dep
 		return
 	}
 	ws.all, ws.why = true, "call to "+shortFuncName(callee)
+}
+
+// scanContractWritesAt: like scanContractWrites, but when every argument of the call is loop-invariant the
+// modifies targets are evaluated once in the loop-entry state and havocked location-wise. Returns false when
+// that is not possible (the caller then falls back to the family-wise scan).
+func (u *Unit) scanContractWritesAt(c *Contract, ws *writeSet, call *ssa.CallCommon, callee *ssa.Function, inLoop func(ssa.Value) bool, depth int) bool {
+	if u.scanEntry == nil || depth != 0 || c.ModAll || len(c.Modifies) == 0 {
+		return false
+	}
+	deps := map[string]bool{}
+	var argv []ssa.Value
+	if call.IsInvoke() {
+		argv = append(argv, call.Value)
+	}
+	argv = append(argv, call.Args...)
+	for _, a := range argv {
+		if !stableBase(a, inLoop, deps, 0) {
+			return false
+		}
+	}
+	params := map[string]Value{}
+	vals := make([]Value, len(argv))
+	for i, a := range argv {
+		vals[i] = u.evalStable(u.scanEntry, a)
+	}
+	off := 0
+	if call.IsInvoke() || (callee != nil && callee.Signature.Recv() != nil) {
+		if len(vals) > 0 {
+			params["recv"] = vals[0]
+			off = 1
+		}
+	}
+	for i := off; i < len(vals); i++ {
+		params[fmt.Sprintf("arg%d", i-off)] = vals[i]
+	}
+	if callee != nil && len(callee.Params) > 0 {
+		for i, p := range callee.Params {
+			if i < len(vals) {
+				params[p.Name()] = vals[i]
+			}
+		}
+	} else {
+		sig := call.Signature()
+		if callee != nil {
+			sig = callee.Signature
+			if rv := sig.Recv(); rv != nil && len(vals) > 0 && rv.Name() != "" && rv.Name() != "_" {
+				params[rv.Name()] = vals[0]
+			}
+		}
+		ps := sig.Params()
+		for i := 0; i < ps.Len() && i+off < len(vals); i++ {
+			if n := ps.At(i).Name(); n != "" && n != "_" {
+				params[n] = vals[i+off]
+			}
+		}
+	}
+	before := map[string]bool{}
+	for f := range u.touched {
+		before[f] = true
+	}
+	var items []modItem
+	ok := true
+	func() {
+		defer func() {
+			if r := recover(); r != nil {
+				if _, is := r.(specError); is {
+					ok = false
+					return
+				}
+				panic(r)
+			}
+		}()
+		env := &SpecEnv{u: u, st: u.scanEntry, old: u.scanEntry, vars: params, pkg: u.w.pkgOfContract(c)}
+		for _, m := range c.Modifies {
+			items = append(items, env.modItems(m.Expr)...)
+		}
+	}()
+	if !ok {
+		return false
+	}
+	for f := range u.touched {
+		if !before[f] {
+			deps[f] = true // families read while locating the targets must not change in the loop
+		}
+	}
+	for _, it := range items {
+		fw := ws.fams[it.fam]
+		if fw == nil {
+			fw = &famWrite{sort: it.sort}
+			ws.fams[it.fam] = fw
+		}
+		fw.nonFresh = true
+		if it.whole {
+			fw.whole = true
+			continue
+		}
+		if fw.deps == nil {
+			fw.deps = map[string]bool{}
+		}
+		for d := range deps {
+			fw.deps[d] = true
+		}
+		fw.items = append(fw.items, it)
+	}
+	if !c.Pure {
+		ws.allocs = true
+	}
+	return true
 }
 
 func (u *Unit) scanContractWrites(c *Contract, ws *writeSet, sig *types.Signature, recvT types.Type) {
